@@ -443,6 +443,7 @@ where
     let mut pre: HashMap<String, (Value, Value)> = HashMap::new();
     let mut line = String::new();
     loop {
+        crate::model::watch_end();
         line.clear();
         if input.read_line(&mut line).unwrap() == 0 {
             break;
@@ -483,6 +484,7 @@ where
         };
         let e = &row["e"];
         let op = e["a"].as_str().unwrap();
+        crate::model::watch_begin(e);
         let out = if op == "PairWrite" {
             let qa = ctx.dec::<P>(&e["qa"]);
             let qb = ctx.dec::<P>(&e["qb"]);
